@@ -11,6 +11,8 @@ EN  wire enums' discriminants == specified encodings
 RB  read-back: the accessor that reads field f is named like the parameter that the constructor stores in f
 Endianness: decided for the little-endian target the checks compile for (to_ne_bytes).
 """
+import os
+import re
 from .. import an
 from .. import chain as CH
 from .. import guard as G
@@ -268,10 +270,39 @@ def check_dst(ctx, F, crate, kind, a, row, inst, v, lab):
             src = p
             if src[0] == "rawslice":
                 src = src[1][1] if src[1][0] == "asptr" else src[1]
-            if src[0] == "call" and cn(src[1]) in ("alloc::vec::Vec::as_slice", "<alloc::vec::Vec as core::ops::deref::Deref>::deref"):
+            if src[0] == "call" and cn(src[1]).replace("Vec<u8>", "Vec") in ("alloc::vec::Vec::as_slice", "<alloc::vec::Vec as core::ops::deref::Deref>::deref",
+                                                                       "<alloc::vec::Vec as core::convert::AsRef<[u8]>>::as_ref", "<alloc::vec::Vec as core::borrow::Borrow<[u8]>>::borrow"):
                 src = ("vec",)
-            if src[0] == "arg":
-                pn = param_name(inst, src[1])
+            # provenance of the variable part: the bytes of one parameter (the parameter slice itself, or the raw byte view
+            # `from_raw_parts(p.as_ptr(), size_of_val(p))` of that same parameter), or - for the framebuffer's colour information - the
+            # vector `serialize()` answers for the buffer_type parameter (whose contents are the serialize:* premises).  Anything else
+            # (a conditional choice between buffers, a scratch buffer filled elsewhere, a sub-slice) is not read as "the argument's bytes"
+            def _arg_of(t):
+                t = G.strip(t)
+                for _ in range(3):
+                    if t[0] in ("ref", "deref"):
+                        t = G.strip(t[1])
+                return t[1] if t[0] == "arg" else None
+            srcarg = None
+            if src == ("vec",):
+                inner_ = G.strip(p[1][1] if p[0] == "rawslice" and p[1][0] == "asptr" else p)
+                v_ = inner_[2][0] if inner_[0] == "call" and inner_[2] else None
+                if v_ is not None and G.strip(v_)[0] == "ref":
+                    v_ = G.strip(v_)[1]
+                v_ = G.strip(v_) if v_ is not None else None
+                if not (a["name"] == "FramebufferTag" and v_ is not None and v_[0] == "call" and cn(v_[1]).endswith("FramebufferType::serialize")
+                        and len(v_[2]) == 1 and _arg_of(v_[2][0]) is not None and param_name(inst, _arg_of(v_[2][0])) == "buffer_type"):
+                    bad.append("variable part <- %s (not the parameter's bytes) [%s]" % (G.show(p)[:80], v_))
+            elif src[0] == "arg":
+                srcarg = src[1]
+                if p[0] == "rawslice":
+                    ln = G.strip(p[2])
+                    if not (ln[0] == "sizeofval" and _arg_of(ln[1]) == srcarg):
+                        bad.append("variable part: byte view of parameter %s with length %s" % (param_name(inst, srcarg), G.show(p[2])[:60]))
+            else:
+                bad.append("variable part <- %s (not the parameter's bytes)" % G.show(p)[:80])
+            if srcarg is not None:
+                pn = param_name(inst, srcarg)
                 if alias.get(pn, pn) != tail["field"] and not (a["name"] in ("BootLoaderNameTag", "CommandLineTag", "ModuleTag")):
                     bad.append("tail <- parameter %s" % pn)
             rest = pieces[pi + 1:]
